@@ -1050,6 +1050,63 @@ func runC10(c *Ctx) {
 				map[string]any{"transport": ta.uri, "digest": da.uri}, map[string]any{"encrypt_class": cls})
 		}
 	}
+	// recipient keys whose modulus length is not a whole number of bytes (1025 ... 2047 bits are legal RSA keys):
+	// a wrapped key is then ceil(bits/8) bytes long
+	for _, bits := range []int{1025, 1030, 2047} {
+		k, err := rsa.GenerateKey(rand.Reader, bits)
+		if err != nil {
+			panic(err)
+		}
+		tmpl := &x509.Certificate{SerialNumber: big.NewInt(int64(bits)), Subject: pkix.Name{CommonName: fmt.Sprint("odd-", bits)},
+			NotBefore: time.Date(1970, 1, 1, 0, 0, 0, 0, time.UTC), NotAfter: time.Date(9999, 12, 31, 0, 0, 0, 0, time.UTC)}
+		der, err := x509.CreateCertificate(rand.Reader, tmpl, tmpl, &k.PublicKey, k)
+		if err != nil {
+			panic(err)
+		}
+		kcert, _ := x509.ParseCertificate(der)
+		for ti := range talgs {
+			ta := &talgs[ti]
+			da := &dalgs[0]
+			ck := randBytes(c, 16)
+			plain := []byte("<x>odd key size</x>")
+			iv := randBytes(c, 16)
+			dataCT := append(append([]byte{}, iv...), rawCBCEnc(a0, ck, iv, w3cPad(c, plain, 16, true))...)
+			var w []byte
+			if ta.name == "Pkcs1v15" {
+				w, _ = rsa.EncryptPKCS1v15(rand.Reader, &k.PublicKey, ck)
+			} else {
+				w = refOAEPEncrypt(&k.PublicKey, da.h, sha1.New, ck, rand.Reader)
+			}
+			ek := &eel{method: strp(ta.uri), dg: strp(da.uri), cert: certAbsent, cv: cvBytes, cvBytes: w, prefix: true}
+			if ta.name == "Pkcs1v15" {
+				ek.dg = nil
+			}
+			obs, out := implDecrypt(k, (&eel{method: strp(a0.uri), cv: cvBytes, cvBytes: dataCT, inner: ek, prefix: true}).xml("EncryptedData"))
+			interop("ref_to_pkg_odd_key_size", map[string]string{"transport": ta.name, "bits": fmt.Sprint(bits), "op": "interop", "mgf": "mgf_sha1_is_label_hash"},
+				strings.HasPrefix(obs, "(DOk") && bytes.Equal(out, plain), map[string]any{"transport": ta.uri, "modulus_bits": bits, "wrapped_key_bytes": len(w)}, strings.SplitN(obs, " ", 2)[0])
+			// the package's own output for such a recipient, read back by the package
+			var enc xmlenc.RSA
+			switch ta.name {
+			case "OaepMgf1p":
+				enc = xmlenc.OAEP()
+				enc.DigestMethod = da.dm
+			case "Oaep11":
+				enc = xmlenc.OAEP_SHA256()
+				enc.DigestMethod = da.dm
+			default:
+				enc = xmlenc.PKCS1v15()
+			}
+			enc.BlockCipher = xmlenc.AES128CBC
+			el, cls := implEncrypt(enc, kcert, plain, nil)
+			good := false
+			if cls == 0 {
+				obs2, out2 := implDecrypt(k, el)
+				good = strings.HasPrefix(obs2, "(DOk") && bytes.Equal(out2, plain)
+			}
+			interop("pkg_roundtrip_odd_key_size", map[string]string{"transport": ta.name, "bits": fmt.Sprint(bits), "op": "interop", "mgf": "mgf_sha1_is_label_hash"}, good,
+				map[string]any{"transport": ta.uri, "modulus_bits": bits}, map[string]any{"encrypt_class": cls})
+		}
+	}
 	// DigestMethod absent means SHA-1 (a conformant sender may omit it)
 	{
 		ck := randBytes(c, 16)
